@@ -18,6 +18,11 @@ IsUnhashableKnown(v) == v.k = "known" /\ v.o.c \in {"list", "dict", "set"}
 \* hash(a) = hash(b)?  Generated dataclass hashes are structural; MultiValuedValue.__hash__ hashes the
 \* frozenset of the members (order-insensitive, consistent with __eq__); KnownValue of an unhashable
 \* object hashes by id() (value.py:636), i.e. two separately created literals never hash alike.
+\* is_asynq flag of a callable term (the field is present only when set)
+SigAsynq(v) == "asynq" \in DOMAIN v /\ v.asynq
+\* generated dataclass hashes do not include the class: TypeGuardExtension(t) / TypeIsExtension(t) hash alike, and so do
+\* ParameterTypeGuardExtension(name, t) / NoReturnGuardExtension(name, t)
+MdHashKey(x) == CASE x \in {"typeguard", "typeis"} -> "guard1" [] x \in {"paramguard", "noreturnguard"} -> "guard2" [] OTHER -> x
 RECURSIVE HasUnhashableKnown(_)
 HasUnhashableKnown(v) ==
     CASE v.k = "known"    -> IsUnhashableKnown(v)
@@ -26,11 +31,16 @@ HasUnhashableKnown(v) ==
       [] v.k = "subclass" -> HasUnhashableKnown(v.t)
       [] v.k = "union"    -> \E i \in 1..Len(v.ms) : HasUnhashableKnown(v.ms[i])
       [] v.k = "dictinc"  -> \E i \in 1..Len(v.kvs) : HasUnhashableKnown(v.kvs[i].key) \/ HasUnhashableKnown(v.kvs[i].val)
+      \* C14 wide terms (SubstContexts.tla; add-only arms, no term of the older spaces has these kinds)
+      [] v.k = "callable" -> HasUnhashableKnown(v.ret) \/ \E i \in 1..Len(v.ps) : v.ps[i].t # << >> /\ HasUnhashableKnown(v.ps[i].t[1])
+      [] v.k = "annotated" -> HasUnhashableKnown(v.t) \/ \E i \in 1..Len(v.md) : HasUnhashableKnown(v.md[i].t)
+      [] v.k \in {"unpacked", "asynctask", "exactly"} -> HasUnhashableKnown(v.t)
       [] OTHER            -> FALSE
 \* structural equality in which the members of a union form a set
 RECURSIVE StructEq(_, _)
 StructEq(a, b) ==
-    IF a.k # b.k THEN FALSE
+    \* (C14 wide terms) a TypedDict with and one without extra keys hash alike when their key names agree
+    IF a.k # b.k THEN ({a.k, b.k} = {"typeddict", "tdx"} /\ {a.items[i].key : i \in 1..Len(a.items)} = {b.items[i].key : i \in 1..Len(b.items)})
     ELSE CASE a.k = "generic"  -> a.c = b.c /\ Len(a.args) = Len(b.args) /\ \A i \in 1..Len(a.args) : StructEq(a.args[i], b.args[i])
            [] a.k = "seq"      -> a.c = b.c /\ Len(a.ms) = Len(b.ms)
                                   /\ \A i \in 1..Len(a.ms) : a.ms[i].many = b.ms[i].many /\ StructEq(a.ms[i].t, b.ms[i].t)
@@ -44,6 +54,21 @@ StructEq(a, b) ==
                                   /\ \A i \in 1..Len(a.kvs) : /\ a.kvs[i].many = b.kvs[i].many /\ a.kvs[i].req = b.kvs[i].req
                                                               /\ StructEq(a.kvs[i].key, b.kvs[i].key) /\ StructEq(a.kvs[i].val, b.kvs[i].val)
            [] a.k = "known"    -> KVEq(a.o, b.o)      \* hash((type(val), val)): 1, 1.0 and True hash alike
+           \* ---- C14 wide terms (add-only arms)
+           \* CallableValue: unsafe_hash over (typ, literal_only, signature); Signature.__hash__ (signature.py:578) hashes
+           \* tuple(parameters.items()) IN ORDER, the return value and the flags; SigParameter: frozen dataclass hash
+           [] a.k = "callable" -> /\ Len(a.ps) = Len(b.ps) /\ SigAsynq(a) = SigAsynq(b) /\ StructEq(a.ret, b.ret)
+                                  /\ \A i \in 1..Len(a.ps) : /\ a.ps[i].n = b.ps[i].n /\ a.ps[i].kind = b.ps[i].kind /\ a.ps[i].d = b.ps[i].d
+                                                              /\ Len(a.ps[i].t) = Len(b.ps[i].t)
+                                                              /\ (a.ps[i].t # << >> => StructEq(a.ps[i].t[1], b.ps[i].t[1]))
+           \* AnnotatedValue: frozen dataclass hash over (value, metadata tuple); extensions are frozen dataclasses
+           [] a.k = "annotated" -> /\ StructEq(a.t, b.t) /\ Len(a.md) = Len(b.md)
+                                   /\ \A i \in 1..Len(a.md) : MdHashKey(a.md[i].x) = MdHashKey(b.md[i].x) /\ StructEq(a.md[i].t, b.md[i].t)
+           \* TypedDictValue with extra keys: __hash__ still hashes the sorted key names only
+           [] a.k = "tdx"      -> {a.items[i].key : i \in 1..Len(a.items)} = {b.items[i].key : i \in 1..Len(b.items)}
+           [] a.k \in {"unpacked", "asynctask", "exactly"} -> StructEq(a.t, b.t)
+           \* KnownValueWithTypeVars: generated dataclass hash over (val,) -- differs from KnownValue.__hash__ (a.k # b.k above)
+           [] a.k = "knowntv"  -> a.o = b.o
            [] OTHER            -> a = b
 ImplSameHash(a, b) == StructEq(a, b) /\ ~HasUnhashableKnown(a)
 
@@ -57,7 +82,9 @@ ImplEqSeq(s, t) == Len(s) = Len(t) /\ \A i \in 1..Len(s) : ImplEq(s[i], t[i])
 ImplEqMembers(s, t) == Len(s) = Len(t) /\ \A i \in 1..Len(s) : s[i].many = t[i].many /\ ImplEq(s[i].t, t[i].t)
 
 ImplEq(a, b) ==
-    IF a.k # b.k THEN FALSE
+    \* KnownValueWithTypeVars (C14 wide terms): KnownValue.__eq__ accepts it (isinstance), and its own generated __eq__ returns
+    \* NotImplemented for a plain KnownValue so that the reflected KnownValue.__eq__ decides
+    IF a.k # b.k THEN ({a.k, b.k} = {"known", "knowntv"} /\ KVEq(a.o, b.o))
     ELSE CASE a.k = "any"      -> a.src = b.src
            [] a.k = "known"    -> KVEq(a.o, b.o)
            [] a.k = "typed"    -> a.c = b.c
@@ -77,6 +104,25 @@ ImplEq(a, b) ==
                 /\ Len(a.kvs) = Len(b.kvs)
                 /\ \A i \in 1..Len(a.kvs) : /\ a.kvs[i].many = b.kvs[i].many /\ a.kvs[i].req = b.kvs[i].req
                                             /\ ImplEq(a.kvs[i].key, b.kvs[i].key) /\ ImplEq(a.kvs[i].val, b.kvs[i].val)
+           \* ---- C14 wide terms (add-only arms)
+           \* CallableValue / Signature: dataclass equality; `parameters` is a dict, so the ORDER of the parameters is not
+           \* compared (dict equality), only name -> SigParameter(name, kind, default, annotation)
+           [] a.k = "callable" ->
+                /\ {a.ps[i].n : i \in 1..Len(a.ps)} = {b.ps[i].n : i \in 1..Len(b.ps)} /\ Len(a.ps) = Len(b.ps)
+                /\ SigAsynq(a) = SigAsynq(b) /\ ImplEq(a.ret, b.ret)
+                /\ \A i \in 1..Len(a.ps) : \A j \in 1..Len(b.ps) :
+                      a.ps[i].n = b.ps[j].n => /\ a.ps[i].kind = b.ps[j].kind /\ a.ps[i].d = b.ps[j].d /\ Len(a.ps[i].t) = Len(b.ps[j].t)
+                                               /\ (a.ps[i].t # << >> => ImplEq(a.ps[i].t[1], b.ps[j].t[1]))
+           [] a.k = "annotated" -> /\ ImplEq(a.t, b.t) /\ Len(a.md) = Len(b.md)
+                                   /\ \A i \in 1..Len(a.md) : a.md[i].x = b.md[i].x /\ ImplEq(a.md[i].t, b.md[i].t)
+           [] a.k = "tdx" ->
+                /\ {a.items[i].key : i \in 1..Len(a.items)} = {b.items[i].key : i \in 1..Len(b.items)}
+                /\ \A i \in 1..Len(a.items) : \A j \in 1..Len(b.items) :
+                      a.items[i].key = b.items[j].key => (a.items[i].req = b.items[j].req /\ a.items[i].ro = b.items[j].ro
+                                                          /\ ImplEq(a.items[i].t, b.items[j].t))
+                /\ Len(a.extra) = Len(b.extra) /\ (a.extra # << >> => ImplEq(a.extra[1], b.extra[1])) /\ a.xro = b.xro
+           [] a.k \in {"unpacked", "asynctask", "exactly"} -> ImplEq(a.t, b.t)
+           [] a.k = "knowntv"  -> a.o = b.o          \* generated dataclass __eq__ over (val,)
            [] a.k = "union"    ->
                 \/ ImplEqSeq(a.ms, b.ms)
                 \/ /\ \A i \in 1..Len(a.ms) : \E j \in 1..Len(b.ms) : ImplEq(a.ms[i], b.ms[j]) /\ ImplSameHash(a.ms[i], b.ms[j])
@@ -85,10 +131,25 @@ ImplEq(a, b) ==
 (***************************************************************************)
 (* Impl: unite_values (value.py:2873)                                      *)
 (***************************************************************************)
+\* annotate_value (value.py:2812): nested Annotated are merged, the metadata de-duplicated in insertion order
+RECURSIVE DedupeMd(_, _)
+DedupeMd(md, acc) ==
+    IF md = << >> THEN acc
+    ELSE LET e == Head(md)
+             dup == \E i \in 1..Len(acc) : acc[i].x = e.x /\ ImplSameHash(acc[i].t, e.t) /\ ImplEq(acc[i].t, e.t)
+         IN DedupeMd(Tail(md), IF dup THEN acc ELSE Append(acc, e))
+ImplAnnotate(t, md) ==
+    IF md = << >> THEN t
+    ELSE IF t.k = "annotated" THEN [k |-> "annotated", t |-> t.t, md |-> DedupeMd(t.md \o md, << >>)]
+    ELSE [k |-> "annotated", t |-> t, md |-> DedupeMd(md, << >>)]
 RECURSIVE Flatten(_)
 Flatten(vals) ==          \* members of unions are spliced in (unions are never nested)
     IF vals = << >> THEN << >>
-    ELSE (IF IsUnion(Head(vals)) THEN Head(vals).ms ELSE <<Head(vals)>>) \o Flatten(Tail(vals))
+    ELSE (IF IsUnion(Head(vals)) THEN Head(vals).ms
+          \* C14 wide terms: Annotated[A | B, md] is split into Annotated[A, md] | Annotated[B, md] (value.py:2893, :2762)
+          ELSE IF Head(vals).k = "annotated" /\ IsUnion(Head(vals).t)
+               THEN [i \in 1..Len(Head(vals).t.ms) |-> ImplAnnotate(Head(vals).t.ms[i], Head(vals).md)]
+          ELSE <<Head(vals)>>) \o Flatten(Tail(vals))
 
 \* insertion-ordered de-duplication through a dict keyed by the values (hash + __eq__)
 RECURSIVE Dedupe(_, _)
@@ -98,7 +159,9 @@ Dedupe(vals, acc) ==
              dup == \E i \in 1..Len(acc) : ImplSameHash(acc[i], v) /\ ImplEq(acc[i], v)
          IN Dedupe(Tail(vals), IF dup THEN acc ELSE Append(acc, v))
 
-IsUnreachableAny(v) == v.k = "any" /\ v.src = "unreachable"
+RECURSIVE IsUnreachableAny(_)
+IsUnreachableAny(v) == IF v.k = "annotated" THEN IsUnreachableAny(v.t)      \* _is_unreachable looks through Annotated (value.py:2871)
+                       ELSE v.k = "any" /\ v.src = "unreachable"
 
 ImplUnite(vals) ==
     LET existing == Dedupe(Flatten(vals), << >>)
